@@ -189,7 +189,7 @@ pub fn load_vector_instructions(map: &mut HashMap<String, Instruction>) {
     );
     map.insert(
         String::from("BOOLVECTOR.ROTATE"),
-        Instruction::new(bool_vector_rand),
+        Instruction::new(bool_vector_rotate),
     );
     map.insert(
         String::from("BOOLVECTOR.SHOVE"),
